@@ -66,6 +66,12 @@ def _work(arg):
         out["wall"] = time.perf_counter() - t0
         out["cpu"] = time.process_time() - c0
         return out
+    except Exception as e:
+        if type(e).__name__ == "BaseSyncFailed":
+            return {"job": job, "states": 1, "transitions": 1, "wall": time.perf_counter() - t0,
+                    "violations": [{"kind": "base-sync-failed", "sig": "base", "detail": {"error": str(e)[:400]}, "hist": []}]}
+        return {"job": job, "harness_error": "%s: %s" % (type(e).__name__, e),
+                "trace": traceback.format_exc(limit=12), "wall": time.perf_counter() - t0}
     except BaseException as e:          # harness failure, never a violation
         return {"job": job, "harness_error": "%s: %s" % (type(e).__name__, e),
                 "trace": traceback.format_exc(limit=12), "wall": time.perf_counter() - t0}
@@ -228,7 +234,12 @@ class Report:
               "harness_errors": len(self.harness_errors)}
         with open(os.path.join(EVIDENCE, "%s.json" % self.prop), "w") as f:
             json.dump(ev, f, indent=1, default=repr)
+        nv = 0
         for ln in lines:
+            if ln.startswith("VIOLATION") or ln.startswith("  kind="):
+                nv += 1
+                if nv > 120:
+                    continue        # every violation has its replay file; only the first 60 are echoed
             print(ln)
         print("%s %s: jobs=%d states=%d transitions=%d terminals=%d outcomes=%d capped=%d audits=%d known=%d "
               "new_violations=%d harness_errors=%d wall=%.1fs" %
